@@ -11,12 +11,19 @@ Level: exploration (TLC-generated cases from an explicit TLA+ data model; laws e
     as_value / into_value / try_from_value / try_convert, the three Recon printers, both reading
     paths (parse_recognize::<T> and parse -> Value -> try_from_value), MessagePack write / read.
     (Every rendered instance is also sent once with its last delimiter cut off: an unparseable text.)
+    The battery has three parts: derived types with the attribute combinations; collections / frame sequences
+    whose 2nd and later elements are read by reset() recognizers; and the position battery: every primitive
+    kind Form supports (integers of every width, f64, bool, String, Text, BigInt, BigUint, blobs, unit,
+    Timestamp, Duration, RetryStrategy / Quantity, RouteUri, NonZeroUsize, Arc) in every structural position
+    (top level, slot, attribute, header slot, header body, delegated body, Vec element, Option, map key, map
+    value) with boundary values sampled from the pools (kind limits, every MessagePack width, big integers
+    beyond 64 bits, empty / 1 byte / 300 byte blobs, strings at the 31/32 and 255/256 boundaries).
  3. The observations are written as a table; TLC (specs/MC_FormDoc.tla) evaluates the laws of the
     property (FormDoc.tla section 7) on every row.  A row that breaks a law is a VIOLATION unless it
     matches an open known finding.  A row on which both real reading paths agree with each other but
     not with the reference reader is MODEL-DRIFT (a note).
 """
-import json, os, random, hashlib, threading, decimal, re, collections, base64
+import json, os, random, time, hashlib, threading, decimal, re, collections, base64
 from vlib import core
 
 LEVEL = "exploration"
@@ -44,7 +51,7 @@ def plan(tier, mk):
         # every primitive kind in every structural position: boundary values sampled from the pools per document
         for g in range(GROUPS):
             jobs.append(dict(name="pos%d" % g, keys=pos[g::GROUPS], scope=0, max_mut=1, mut_depth=1, frames=1,
-                             styles=("std", "ws"), sigmas=1))
+                             styles=("std",), sigmas=1))
         return jobs
     for g in range(GROUPS):
         jobs.append(dict(name="gen%d" % g, keys=base[g::GROUPS], scope=1, max_mut=1, mut_depth=3, frames=2, styles=ALL_STYLES, sigmas=2))
@@ -67,23 +74,27 @@ CHUNK = 150000
 B64 = bytes(range(256))
 POOLS = {
     # 0 .. i32::MAX: every MessagePack width (fixint / 8 / 16 / 32 bit)
-    "i": [0, 1, 127, 128, 255, 256, 65535, 65536, 2147483647, 42],
+    "i": [1, 127, 128, 255, 256, 65535, 65536, 2147483647, 42],       # (zero is its own leaf, class Z)
     "n": [-1, -32, -33, -128, -129, -32768, -32769, -2147483648],
-    "g": [4294967296, 9223372036854775807, 1099511627776],            # > u32::MAX, fits i64 (64 bit width)
+    "g": [4294967296, 9007199254740992, 1099511627776],               # > u32::MAX, fits i64 (64 bit width)
+    "L": [9223372036854775807],                                        # i64::MAX
     "h": [2147483648, 4294967295],                                     # (i32::MAX, u32::MAX]
     "G": [9223372036854775808, 18446744073709551615],                  # (i64::MAX, u64::MAX]
     "N": [-2147483649, -9223372036854775808],                          # [i64::MIN, i32::MIN)
     "B": [18446744073709551616, 10 ** 30, 2 ** 200],                   # beyond u64: big integers (MessagePack ext)
     "M": [-9223372036854775809, -(10 ** 30), -(2 ** 200)],
-    "T": [0, 1000000, 1700000000000000, 1700000000123456, -1000000, 999999, -1],   # timestamps in micro-seconds
+    "T": [0, 1000000, 1700000000000000, -1000000],                     # timestamps in micro-seconds: whole seconds
+    "U": [1700000000123456, 999999, -1],                               # ... with a sub-second part
     "z": [0, 1, 999999999],                                            # nano-seconds
-    "f": [0.5, -2.25, 1e-7, 123456.789, 1.5, 0.1, 3.4028234663852886e38, 1.7976931348623157e308, 5e-324, -0.0],
+    "q": [1, 127, 128, 65536, 2147483647],                             # non-zero
+    "r": ["/node", "swim:/a/b", "/a/b/c", "a/b?q=1#frag", "/unit/foo%20bar"],       # route uris
+    "f": [0.5, -2.25, 1e-7, 123456.789, 1.5, 0.1, 3.5e38, 1.5e300, 2.5e-300, -0.0],   # (f32 range, beyond it, tiny, -0.0)
     "b": [True, False],
     "s": ["pooled", "hello world", "", "true", "@at", "é ñ", "q\"uo\\te", "line\nbreak", "1x", "-", "k v",
           "a" * 31, "b" * 32, "c" * 255, "d" * 256],                     # (str width boundaries 31/32, 255/256)
     "d": [b"", b"\x00", B64 + bytes(44), B64[:255], B64, B64[:31], B64[:32]],        # blobs: empty, 1 byte, 300 bytes, bin8/bin16
 }
-INT_CLASSES = ("i", "n", "g", "h", "G", "N", "B", "M", "T", "z")
+INT_CLASSES = ("i", "n", "g", "h", "G", "N", "B", "M", "T", "U", "z", "Z", "q", "c", "L")
 
 
 class Sigma:
@@ -103,6 +114,10 @@ class Sigma:
             return None
         if c == "t":
             return v["s"]
+        if c == "Z":
+            return 0
+        if c == "c":
+            return int(v["s"])
         return self.perm[c][int(v["s"])]
 
 
@@ -247,6 +262,8 @@ class Schema:
             return v
         if c == "opt":
             return None if x["k"] == "none" else self.ty(t["e"], x["v"][0], sg)
+        if c == "quant":
+            return "infinite" if x["k"] == "inf" else self.ty(t["e"], x["v"][0], sg)
         if c == "vec":
             return [self.ty(t["e"], e, sg) for e in x["v"]]
         if c == "tuple":
@@ -369,7 +386,7 @@ def in_threads(fn, argss, width=GROUPS):
 
 def probe_excuses(wd, out):
     """the excuses of ReadInvertsRender are keyed on open findings: without them the model must still exhibit the finding"""
-    probes = {"F1": ["AttrMap"], "F3": ["BodyValue"]}
+    probes = {"F1": ["AttrMap"], "F3": ["BodyValue"], "F12": ["Body_duration"]}
     pres, perr = {}, []
     in_threads(run_gen, [(wd, dict(name="probe" + f, keys=probes[f], scope=0, max_mut=0, mut_depth=0, frames=1), pres, perr, set())
                          for f in sorted(defects()) if f in probes])
@@ -494,12 +511,25 @@ def inst_row(r):
     vx = ids.id(r["x"])
     eq = lambda o: acc(o) and ids.id(o["v"]) == vx
     return {"kind": "inst", "rt": acc(r["rt"]), "rt_eq": eq(r["rt"]), "rtc": acc(r["rtc"]), "rtc_eq": eq(r["rtc"]) and bool(r["into_same"]),
-            "mp": acc(r["mp"]), "mp_eq": eq(r["mp"]) and r.get("mp_rest", 0) == 0}
+            "mp": acc(r["mp"]), "mp_eq": eq(r["mp"]) and r.get("mp_rest", 0) == 0 and r.get("mp_into_same", True)}
 
 
 PANIC_INST = {"kind": "inst", "rt": False, "rt_eq": False, "rtc": False, "rtc_eq": False, "mp": False, "mp_eq": False}
 PANIC_DOC = {"kind": "doc", "p": True, "d": True, "m": False, "c": False, "vd": 0, "vm": 0, "vc": 0, "isx": False, "vx": 0}
 PRINTERS = ("std", "compact", "pretty")
+
+
+def explain_drift(what, ty, detail):
+    """Differences between the reference reader M and the real code (on which both real paths agree) that come from what
+    M deliberately does not model: it has no arithmetic and no URI syntax.  Everything else counts as model drift."""
+    err = json.dumps(detail.get("obs"))
+    if ("duration" in ty.lower() or "retry" in ty.lower()) and what.startswith("Read expects accept") and "Number out of range" in err:
+        return "Duration: secs + nanos / 10^9 overflows u64 (M has no arithmetic)"
+    if ("duration" in ty.lower() or "retry" in ty.lower()) and what == "Read expects another value":
+        return "Duration: nanos >= 10^9 are carried into secs (M has no arithmetic)"
+    if ty.endswith("_uri") and what.startswith("Read expects accept") and "URI" in err:
+        return "RouteUri: the pooled string is not a valid route URI (M does not model URI syntax)"
+    return None
 
 
 class Table:
@@ -513,10 +543,12 @@ class Table:
         self.info = []            # per row: (kind, ty, subject, printer index / style, ops)
         self.drift = []
         self.drift_n = collections.Counter()
+        self.drift_explained = collections.Counter()
         self.stats = collections.Counter()
         self.unfaithful = {}
         self.nontrivial = set()
         self.last_op = collections.Counter()
+        self.bridge_types = collections.Counter()
         self.samples = {}
 
     def add(self, row, inf):
@@ -535,6 +567,10 @@ class Table:
             self.buf = []
 
     def note_drift(self, what, ty, detail):
+        why = explain_drift(what, ty, detail)
+        if why:
+            self.drift_explained[why] += 1
+            return
         self.drift_n[(what, ty)] += 1
         if len(self.drift) < 300:
             detail.update({"what": what, "ty": ty})
@@ -570,6 +606,10 @@ class Table:
                 # M: the reference writer against as_value
                 if canon(norm_model(r["asv"])) != canon(norm_model(built(d["doc"], sg))):
                     self.note_drift("Render != as_value", ty, {"x": x, "as_value": r["asv"], "render": built(d["doc"], sg)})
+                tb = r.get("typed_bridge")
+                if tb is not None and not (acc(tb) and canon(tb["v"]) == canon(x) and canon(r.get("typed_bridge_into")) == canon(tb)):
+                    st["typed_value_through_bridge_differs"] += 1
+                    self.bridge_types[ty] += 1
                 if not r.get("print_model_same", True):
                     st["typed_print_differs_from_model_print"] += 1
                 mm = r.get("mp_as_model")
@@ -606,6 +646,8 @@ class Table:
                 if exp["ok"] != row["m"]:
                     self.note_drift("Read expects %s, both real paths %s" % ("accept" if exp["ok"] else "reject", "accept" if row["m"] else "reject"),
                                     ty, {"text": c["text"], "ops": list(ops), "obs": r.get("via"), "doc": d["doc"]})
+                elif exp["ok"] and '"any"' in canon(exp["x"]):
+                    st["reference_reader_leaves_the_value_unspecified"] += 1
                 elif exp["ok"]:
                     ex = schema.key(ty, exp["x"], sg)
                     if canon(ex) != canon(r["via"]["v"]):
@@ -648,7 +690,7 @@ def _add_seq(self, d, schema, c, r, seed):
             if exp["ok"] != row["m"]:
                 # (renderings that are not faithful are already counted on the single documents)
                 st["frame_differs_from_reference_reader"] += 1
-            elif exp["ok"] and canon(schema.key(ty, exp["x"], sg)) != canon(fr["via"]["v"]):
+            elif exp["ok"] and '"any"' not in canon(exp["x"]) and canon(schema.key(ty, exp["x"], sg)) != canon(fr["via"]["v"]):
                 st["frame_differs_from_reference_reader"] += 1
 
 
@@ -704,6 +746,9 @@ def kf_match(f, law, kind, ty, subject, bits):
     for sig in f["signature"]:
         pattern = sig["cases"].get(ty, sig["cases"].get("*"))      # "*": any battery type
         if sig["law"] != law or sig["op"] != kind or pattern is None:
+            continue
+        # a panic of the code under test is only ever covered by a clause that names it
+        if ("panic" in sig) != ("panic" in bits) or ("panic" in sig and sig["panic"] not in bits["panic"]):
             continue
         if re.search(pattern, subject, re.S) is None:
             continue
@@ -763,9 +808,15 @@ def run(tier, out):
                     docs.append(d)
                 if not docs:
                     continue
+                t0 = time.time()
                 cases = build_cases(docs, schema, j, seed, table.n)
+                t1 = time.time()
                 results = harness(wd, [strip(c) for c in cases], "cases")
+                t2 = time.time()
                 table.add_batch(docs, schema, cases, results, seed)
+                gst["t_render"] += t1 - t0
+                gst["t_harness"] += t2 - t1
+                gst["t_rows"] += time.time() - t2
                 gst["documents"] += len(docs)
             raw = None
         gwall += bw
@@ -775,6 +826,7 @@ def run(tier, out):
     core.log("[C16] %d rows (%d instances, %d documents; %d accepted by both paths, %d rejected by both); laws broken on %d rows; drift %d" % (
         tot["rows"], tot["inst"], tot["doc"], tot["both_accept"], tot["both_reject"], len(failed), sum(table.drift_n.values())))
     gst["wall"] = gwall
+    core.log("[C16] wall: generation %.0fs, rendering %.0fs, harness %.0fs, table %.0fs" % (gwall, gst["t_render"], gst["t_harness"], gst["t_rows"]))
     report(out, tier, jobs, table, failed, tot, cov, gst, wd)
 
 
@@ -820,6 +872,8 @@ def report(out, tier, jobs, table, failed, tot, cov, gst, wd):
         row = rows_by_id[f["id"]]
         laws = f["laws"]
         panic = isinstance(extra, str) and extra.startswith("PANIC")
+        if panic:
+            row = dict(row, panic=extra)
         if kind == "seq":
             # a frame of a sequence is a document: the same signatures apply to its text
             # (clauses with op "seq" apply to the 2nd and later frames only: a recognizer that has been reset)
@@ -832,13 +886,12 @@ def report(out, tier, jobs, table, failed, tot, cov, gst, wd):
         covering = [next((kf for kf in findings if any(kf_match(kf, law, mk, ty, subj, row) for mk in mkinds)), None) for law in laws]
         fail_log.append({"laws": laws, "kind": kind, "ty": ty, "subject": subject, "ops": list(ops), "row": row,
                          "known": [k["id"] if k else None for k in covering]})
-        if not panic and all(k is not None for k in covering):
+        if all(k is not None for k in covering):
             for k in {k["id"]: k for k in covering}.values():
                 hit[k["id"]] += 1
                 per_sig.setdefault(k["id"], k)
             continue
-        if not panic:
-            laws = [law for law, k in zip(laws, covering) if k is None]
+        laws = [law for law, k in zip(laws, covering) if k is None]
         reported += 1
         if reported > 200:
             out.violations.append(("(further broken rows not written as replay files)", "(see %s)" % os.path.join(wd, "failed.json")))
@@ -876,8 +929,9 @@ def report(out, tier, jobs, table, failed, tot, cov, gst, wd):
             documents_per_last_operator=dict(table.last_op), actions_never_taken=never,
             rows_instance=tot["inst"], rows_document=tot["doc"], accepted_by_both=tot["both_accept"], rejected_by_both=tot["both_reject"],
             unparseable_texts=tot["unparsed"], laws_broken_rows=len(failed), known_finding_rows=sum(hit.values()),
+            model_drift_explained=dict(table.drift_explained),
             model_drift=sum(table.drift_n.values()), model_drift_kinds={"%s [%s]" % k: n for k, n in table.drift_n.most_common(12)},
-            harness_stats=dict(table.stats),
+            harness_stats=dict(table.stats), typed_value_through_bridge_differs_by_type=dict(table.bridge_types),
             checker_cmd="tlc Gen_FormDoc (INVARIANTS %s) + h_core form + tlc MC_FormDoc (laws of FormDoc.tla section 7)" % " ".join(GEN_INVS))
     picks = [("HdrBoth", True), ("Shape", False), ("BodyNest", True), ("TwoAttrs", False)]
     for k in picks:
